@@ -101,9 +101,16 @@ func c06History(ctx context.Context, run *common.Run, obs *c06obs, idx int) {
 	txs := make([]*wire.MsgTx, ntx)
 	ids := make([]Hash, ntx)
 	idIndex := map[Hash]int{}
+	// an eighth of the short-regime histories keeps all txids in one of the manager's 256 shards
+	// (same first byte) and uses small retry-poll limits: the limit is only looked at between shards
+	sameShard := regimeShort && idx%8 == 3
 	for i := range txs {
 		txs[i] = netx.MkTx(rng, 10+rng.Intn(30))
 		ids[i] = *txs[i].TxHash()
+		for try := 0; sameShard && ids[i][0] != 0x42 && try < 20000; try++ {
+			txs[i] = netx.MkTx(rng, 10+rng.Intn(30))
+			ids[i] = *txs[i].TxHash()
+		}
 		idIndex[ids[i]] = i
 	}
 	var clock int64
@@ -264,12 +271,24 @@ func c06History(ctx context.Context, run *common.Run, obs *c06obs, idx int) {
 				}
 				time.Sleep(T / 4)
 			}
-			l, _ := tm.GetTxRequests(ctx, peers[p], 10000)
-			ret := time.Now()
-			atomic.AddInt64(&obs.retryPolls, 1)
+			pollMax := 10000
+			if sameShard {
+				pollMax = 1 + rng.Intn(3)
+			}
 			got := map[int]bool{}
-			for _, id := range l {
-				got[idIndex[id]] = true
+			var ret time.Time
+			for iter := 0; iter < 200; iter++ {
+				// with a small limit the peer keeps polling; everything owed to it must come up
+				// before a poll returns nothing
+				l, _ := tm.GetTxRequests(ctx, peers[p], pollMax)
+				ret = time.Now()
+				atomic.AddInt64(&obs.retryPolls, 1)
+				for _, id := range l {
+					got[idIndex[id]] = true
+				}
+				if len(l) == 0 || !sameShard {
+					break
+				}
 			}
 			for _, t := range byPeer[p] {
 				if !got[t] {
